@@ -5,7 +5,7 @@ import re
 import sys
 from fractions import Fraction as Fr
 
-from .. import hir, reffect, rvars, rmatch, rencap, rtable
+from .. import minirust, hir, reffect, rvars, rmatch, rencap, rtable
 from ..rmatch import V, closure_lits
 from ..controls import fixture
 
@@ -236,6 +236,113 @@ def measure_arm_descriptor(arm_body):
     return d
 
 
+# ---------------------------------------------------------------- D5 by evaluation on a tracing host graph (round 2)
+
+class _Counter:
+    """the fresh-variable counter behind `&mut Var`: `*fresh_var += 1` mutates it in place so that helpers see the same cell"""
+
+    def __init__(self, v):
+        self.v, self.incs = v, 0
+
+    def __add__(self, k):
+        if isinstance(k, int) and not isinstance(k, bool):
+            self.v += k
+            self.incs += 1 if k == 1 else 99
+            return self
+        raise minirust.NoEval('counter + %r' % (k,))
+
+    def __repr__(self):
+        return 'var#%d' % self.v
+
+
+class _EC:
+    def __init__(self, name):
+        self.name = name
+
+    def __eq__(self, o):
+        if isinstance(o, _EC):
+            return o.name == self.name
+        return isinstance(o, tuple) and len(o) == 2 and o[0] == 'const' and str(o[1]).rsplit('::', 1)[-1] == self.name
+
+    def __ne__(self, o):
+        return not self == o
+    __hash__ = None
+
+
+def _measure_host(log):
+    outputs = [11, 12, 13]
+    types = {11: 'B', 12: 'B', 13: 'B'}
+    nxt = [20]
+
+    def set_ty(a):
+        t = a[1]
+        types[a[0]] = t[1].rsplit('::', 1)[-1] if isinstance(t, tuple) else getattr(t, 'name', '?')
+        log.append(('set_vertex_type', a[0], types[a[0]]))
+
+    def add_v(a):
+        nxt[0] += 1
+        d = a[0] if a and isinstance(a[0], dict) else {}
+        t = d.get('ty')
+        types[nxt[0]] = t[1].rsplit('::', 1)[-1] if isinstance(t, tuple) else (a[0][1].rsplit('::', 1)[-1] if a and isinstance(a[0], tuple) else '?')
+        log.append(('add_vertex', nxt[0], types[nxt[0]]))
+        return nxt[0]
+    sc = minirust.Obj('scalar', {'mul_sqrt2_pow': lambda a: log.append(('sqrt2', a[0]))}, strict=False)
+    g = minirust.Obj('graph', {
+        'outputs': lambda a: outputs, 'outputs_mut': lambda a: outputs, 'vertex_type': lambda a: _EC(types.get(a[0], '?')),
+        'set_vertex_type': set_ty, 'set_vars': lambda a: log.append(('set_vars', a[0], a[1])), 'add_to_vars': lambda a: log.append(('add_to_vars', a[0], a[1])),
+        'scalar_mut': lambda a: sc, 'qubit': lambda a: 0.0, 'row': lambda a: 1.0, 'add_vertex_with_data': add_v, 'add_vertex': add_v,
+        'add_edge': lambda a: log.append(('add_edge', a[0], a[1])), 'add_edge_with_type': lambda a: log.append(('add_edge', a[0], a[1])),
+        'set_outputs': lambda a: (outputs.__setitem__(slice(None), list(a[0])), None)[1],
+    }, strict=False)
+    return g, outputs
+
+
+def measure_semantics(facts, kind):
+    """Gate::add_to_graph evaluated for a measurement gate on qubit 1 of three wires, with and without a parity of its own.
+    -> {clause: (ok, detail)}; raises NoEval / Proceed when the evaluator declines."""
+    key = 'gate::Gate::add_to_graph'
+    f = facts['fns'][key]
+    ps = [p for p in f['params'] if p.get('k') == 'Bind']
+    if [p['name'] for p in ps][:4] != ['self', 'fresh_var', 'graph', 'qs'] or len(ps) != 5:
+        raise minirust.NoEval('signature of add_to_graph')
+    res = {}
+    for has_vars in (True, False):
+        log = []
+        g, outputs = _measure_host(log)
+        own = minirust.Obj('parity', {'is_empty': lambda a, h=has_vars: not h, 'is_zero': lambda a, h=has_vars: not h}, strict=False)
+        own.methods['clone'] = lambda a, o=own: o
+        gate = {'__struct__': 'gate::Gate', 't': ('const', 'gate::GType::' + kind), 'qs': [1], 'phase': 0, 'vars': own}
+        cnt = _Counter(7)
+        it = minirust.Interp(fuel=6000, facts=facts, inline=lambda c: c.startswith('gate::Gate::') and c != 'gate::Gate::add_to_graph')
+
+        def host_call(c, e, args):
+            if c == 'params::Parity::single':
+                a = args()
+                x = a[0]
+                return ('single', x.v if isinstance(x, _Counter) else x)
+            if c.endswith('Default::default'):
+                return {}
+            return NotImplemented
+        it.host_call = host_call
+        env = {ps[0]['id']: gate, ps[1]['id']: cnt, ps[2]['id']: g, ps[3]['id']: {0: 0, 1: 1, 2: 2}, ps[4]['id']: False}
+        try:
+            it.ev(f['hir'], env)
+        except minirust._Return:
+            pass
+        sv = [x for x in log if x[0] in ('set_vars', 'add_to_vars')]
+        xs = [x[1] for x in log if x[0] == 'set_vertex_type' and x[2] == 'X']
+        tag = 'gate with its own parity' if has_vars else 'gate without a parity'
+        if has_vars:
+            res['given-parity-used'] = (len(sv) == 1 and sv[0][0] == 'set_vars' and sv[0][2] is own, '%s: parities attached: %s' % (tag, [(x[0], x[1], 'own' if x[2] is own else x[2]) for x in sv]))
+            res['counter-untouched-when-given'] = (cnt.incs == 0 and cnt.v == 7, '%s: the fresh-variable counter moved from 7 to %d' % (tag, cnt.v))
+            res['target-is-the-X-effect/given'] = (len(sv) == 1 and xs == [12] and sv[0][1] == 12, '%s: parity attached to %s, vertices turned into X effects: %s (the measured output is 12)' % (tag, [x[1] for x in sv], xs))
+        else:
+            res['fresh-variable-otherwise'] = (len(sv) == 1 and sv[0][0] == 'set_vars' and sv[0][2] == ('single', 7), '%s: parities attached: %s (the next fresh variable is 7)' % (tag, [(x[0], x[1], x[2]) for x in sv]))
+            res['counter-incremented-once-when-fresh'] = (cnt.incs == 1 and cnt.v == 8, '%s: the fresh-variable counter moved from 7 to %d in %d steps' % (tag, cnt.v, cnt.incs))
+            res['target-is-the-X-effect/fresh'] = (len(sv) == 1 and xs == [12] and sv[0][1] == 12, '%s: parity attached to %s, vertices turned into X effects: %s (the measured output is 12)' % (tag, [x[1] for x in sv], xs))
+    return res
+
+
 # uninterpreted guard conditions / early exits present in today's rule bodies (counted 2026-09-26): only ADDITIONAL ones make a mismatch undecided
 BASELINE_OPAQUE = {'basic_rules::remove_pair_unchecked': 4}
 BASELINE_EXITS = {}
@@ -332,10 +439,19 @@ def run(ck):
         t, _ = rtable.match_table(ms[0], 'gate::GType', rtable.enum_variants(facts, 'gate::GType'))
         descs = {}
         for kind in ('Measure', 'MeasureReset'):
+            try:
+                sem = measure_semantics(facts, kind)
+                for name, (ok, detail) in sorted(sem.items()):
+                    ck.ob('R-SIB-measure', '%s/%s' % (kind, name), ok, ck.site('gate::Gate::add_to_graph'), '%s, evaluated on a three-wire diagram: %s' % (kind, detail))
+                ck.note('%s: D5 decided by evaluation on a tracing host graph' % kind)
+                continue
+            except (minirust.NoEval, minirust.Proceed, TypeError, KeyError, IndexError, AttributeError) as ex:
+                ck.note('%s: the evaluator declined (%s); syntactic arm descriptor used' % (kind, ex))
+                why = str(ex)
             d = measure_arm_descriptor(t[kind]['body'])
             descs[kind] = d
             for name in ('given-parity-used', 'fresh-variable-otherwise', 'counter-incremented-once-when-fresh', 'same-target', 'target-is-the-X-effect'):
-                ck.ob('R-SIB-measure', '%s/%s' % (kind, name), bool(d.get(name)), ck.site('gate::Gate::add_to_graph'), '%s arm: %s does not hold' % (kind, name))
+                ck.ob3('R-SIB-measure', '%s/%s' % (kind, name), True if d.get(name) else None, ck.site('gate::Gate::add_to_graph'), '%s arm is neither evaluable (%s) nor of the known shape: %s' % (kind, why, name))
         # the measurement arms remove the measured wire from the qubit -> output-slot map exactly like post-selection does (shared rule with C02-D2):
         # a map keyed by anything but the removed slot sends every later gate (and the recorded parities) to the wrong wire once a SWAP made the map non-monotone
         from .C02 import shift_block
